@@ -275,7 +275,7 @@ Proof.
       by (intros Hmm; apply Proofs_SortRef2.sort_refines_spec_partial; assumption).
     unfold sort_modelled in G.
     destruct (sort_model asc false axis c) as [r|[]]; try (apply G; reflexivity).
-    apply sort_axes_refines_spec_partial; try assumption. exact Hm.
+    apply sort_axes_refines_spec_partial; assumption.
 Qed.
 
 (* sort (values) is modelled for every axis on the handled types *)
